@@ -18,7 +18,7 @@ import math
 
 import numpy as np
 
-from .. import inject
+from .. import core, inject
 
 LEVEL = "exploration"
 RADE = 6378.14
@@ -65,6 +65,7 @@ def run(ctx):
                     cfg.detector.optical.telescope_effective_area = area
                     cfg.detector.optical.quantum_efficiency = qe
                     cfg.detector.optical.photo_electron_threshold = thr
+                    cfg = core.validated(cfg, "C08 detector configuration")
                     n = nev // 3
                     beta = rng.uniform(0, B42, n)
                     beta[:3] = [0.0, B42, math.radians(0.5)]
